@@ -120,3 +120,71 @@ pub fn mutate(rng: &mut Prng, text: &str) -> String {
     }
     format!("{text}\n}}")
 }
+
+/// Layout mutations: the same program with different line terminators, exotic white space,
+/// comments with non-ASCII content, a BOM, ...  Whether the result is still accepted (and to what
+/// it compiles) is decided by the golden run; what matters is that every observer - library in any
+/// process, `simc` - agrees about these exact bytes.
+pub fn layout(rng: &mut Prng, text: &str) -> String {
+    let nl: Vec<usize> = text.char_indices().filter(|(_, c)| *c == '\n').map(|(i, _)| i).collect();
+    let ws: Vec<usize> = text.char_indices().filter(|(_, c)| *c == ' ' || *c == '\n').map(|(i, _)| i).collect();
+    let at = |rng: &mut Prng, v: &[usize]| if v.is_empty() { 0 } else { *rng.pick(v) };
+    match rng.below(14) {
+        0 => {
+            // one LF becomes a lone CR
+            let i = at(rng, &nl);
+            if nl.is_empty() { return format!("{text}\r"); }
+            format!("{}\r{}", &text[..i], &text[i + 1..])
+        }
+        1 => text.replace('\n', "\r\n"),
+        2 => text.replace('\n', "\r"),
+        3 => {
+            // a line comment terminated by a lone CR, followed by code on the "same line"
+            let i = if nl.is_empty() { 0 } else { at(rng, &nl) + 1 };
+            format!("{}// note\r{}", &text[..i], &text[i..])
+        }
+        4 => {
+            // a line comment terminated by CRLF
+            let i = if nl.is_empty() { 0 } else { at(rng, &nl) + 1 };
+            format!("{}// note\r\n{}", &text[..i], &text[i..])
+        }
+        5 => {
+            let i = at(rng, &ws);
+            let c = *rng.pick(&["\t", "\u{b}", "\u{c}", "\u{a0}", "\u{200b}", "\u{2028}", "\u{85}", "\0"]);
+            format!("{}{}{}", &text[..i], c, &text[i..])
+        }
+        6 => format!("\u{feff}{text}"),
+        7 => format!("{text}   \n\n\t\n"),
+        8 => text.trim_end().to_string(),
+        9 => {
+            let i = if nl.is_empty() { 0 } else { at(rng, &nl) + 1 };
+            format!("{}/* \u{e9} \u{2200} \u{1f4a5} \r \0 */{}", &text[..i], &text[i..])
+        }
+        10 => {
+            // comment at the very end without a newline
+            format!("{}// the end", text)
+        }
+        11 => {
+            // unterminated block comment at the end
+            format!("{}/* open", text)
+        }
+        12 => {
+            // every space becomes a tab
+            text.replace(' ', "\t")
+        }
+        _ => {
+            // mixed terminators: alternate LF / CRLF / CR
+            let mut out = String::new();
+            let mut k = 0;
+            for c in text.chars() {
+                if c == '\n' {
+                    out.push_str(["\n", "\r\n", "\r"][k % 3]);
+                    k += 1;
+                } else {
+                    out.push(c);
+                }
+            }
+            out
+        }
+    }
+}
